@@ -448,11 +448,29 @@ where
     let mut model = Model::default();
     let mut stats = Stats::default();
     observe::<C, V>(&deque, &model, "new")?;
+    // A second deque with a history of its own, which becomes a copy of the first through
+    // `clone_from` every few operations and then goes its own way again.
+    let mut spare: SortedDeque<C, V::Marker> = Default::default();
+    for k in 0..4u8 {
+        spare.push_back_or_panic(V::live(k, k));
+    }
+    let _ = spare.pop_first();
     for (i, op) in case.ops.iter().enumerate() {
         match step::<C, V>(&mut deque, &mut model, op, &mut stats) {
             Ok(true) => {}
             Ok(false) => break,
             Err(f) => return Err(Fail::new(f.sig, format!("op #{i} {op:?}: {}", f.msg))),
+        }
+        if i % 4 == 3 {
+            match panics::catch(|| spare.clone_from(&deque)) {
+                Err(p) => return Err(Fail::new(format!("panic:clone_from:{}", p.signature()), format!("after op #{i}: clone_from onto a used deque panicked: {}", p.describe()))),
+                Ok(()) => {}
+            }
+            observe::<C, V>(&spare, &model, "clone_from").map_err(|f| Fail::new(f.sig, format!("after op #{i}: the copy made by clone_from: {}", f.msg)))?;
+            let _ = panics::catch(|| {
+                let _ = spare.pop_first();
+                let _ = spare.pop_last();
+            });
         }
     }
     Ok(outcome(&stats))
